@@ -256,6 +256,9 @@ def render_error_item(e):
         "cond_partial0": ["void fv() { }", "void fe() {", "if (fv()) X = 1;", "}"],
         "arith_partial": ["void fv() { }", "void fe() {", "  X = fv() + 1;", "}"],
         "arith_partial0": ["void fv() { }", "void fe() {", "X = fv() + 1;", "}"],
+        "complex_type": ["short *ctp;"],
+        "complex_local": ["void fe() {", "  short *clp;", "}"],
+        "complex_param": ["void fe(char okp,", "        short *cpp) {", "}"],
     }[k]
 
 
@@ -274,7 +277,10 @@ def render_loc(c):
     el = render_error_item(c["err"])
     assert len(el) == c["err"]["n"]
     files = dict(HFILES)
-    if c["where"] == "main":
+    if c["where"] == "top":
+        assert not c["prefix"]
+        main = list(el)
+    elif c["where"] == "main":
         main += el
     else:
         main.append('#include "errh.h"')
@@ -561,9 +567,10 @@ def c08(tier):
     d = common.workdir("gen_c08")
     cfg = os.path.join(d, "GenMacro.cfg")
     open(cfg, "w").write("INIT Init\nNEXT Next\nINVARIANT Emit\nCHECK_DEADLOCK FALSE\n")
-    res = common.run_tlc("GenMacro", cfg=cfg, name="gen_c08", tags={"CASE"}, workers=8, heap="8g", timeout=1500)
+    res = common.run_tlc("GenMacro", cfg=cfg, name="gen_c08", tags={"CASE", "DOPT"}, workers=8, heap="8g", timeout=1500)
     common.require_ok(res, "GenMacro")
-    cases = [o for (_, o) in res.lines]
+    cases = [o for (t, o) in res.lines if t == "CASE"]
+    dopts = [o for (t, o) in res.lines if t == "DOPT"]
     cases.sort(key=lambda o: json.dumps(o, sort_keys=True))
     total = len(cases)
     if tier == "quick":
@@ -620,11 +627,40 @@ def c08(tier):
         nbad += 1
         verdict.violation("use `%s` after %s (%s, %d fillers): %s" % (join_tokens(c["use"], tight), [dd.get("name") + ("" if dd["k"] == "define" else "-undef") for dd in c["dirs"]], c["origin"], c["filler"], problem[:140]),
                           dict(property=pid, directives=c["dirs"], use=c["use"], origin=c["origin"], fillers=c["filler"], tight=tight, expected=c["expected"], observed=got, source=src, defines=defines, problem=problem, finding_keys=keys))
+    # ---- -D options through compile() itself (the cpp hook has its own copy of the option parsing): the statement compiled
+    # with the option must give exactly the code of the statement as MacroRef expands it, compiled without any macro
+    dseen = {}
+    for o in dopts:
+        dseen[json.dumps(o, sort_keys=True)] = o
+    dopts = [dseen[k] for k in sorted(dseen)]
+    dc = []
+    for i, o in enumerate(dopts):
+        # the variables the statements use, except the name the option defines
+        tmpl = "char %s;\nvoid main()\n{\n  %%s;\n}\n" % ", ".join(v for v in ("r", "q", "N1") if v != o["opt"][0])
+        dc.append(dict(id=2 * i, src=tmpl % " ".join(o["stmt"]), variants=[dict(name="opt", args=["-O1", "-D" + "".join(o["opt"])])]))
+        dc.append(dict(id=2 * i + 1, src=tmpl % " ".join(o["expected"]), variants=[dict(name="ref", args=["-O1"])]))
+    dobs = common.run_harness("compile", dc, "c08d")
+    dopt_ok = 0
+    for i, o in enumerate(dopts):
+        a = dobs[2 * i][0] if dobs[2 * i] else {"status": "missing"}
+        b = dobs[2 * i + 1][0] if dobs[2 * i + 1] else {"status": "missing"}
+        code = lambda x: [(f["name"], [(l["k"], l.get("mn"), l.get("op"), l.get("name")) for l in f["lines"] if l["k"] in ("i", "l", "a")]) for f in x.get("funcs", [])]
+        if b.get("status") != "ok":
+            raise common.ToolError("-D reference program rejected: %s" % json.dumps(b)[:300])
+        if a.get("status") == "ok" and code(a) == code(b):
+            dopt_ok += 1
+            continue
+        nbad += 1
+        verdict.violation("option -D%s: `%s` does not compile like `%s`" % ("".join(o["opt"]), " ".join(o["stmt"]), " ".join(o["expected"])),
+                          dict(property=pid, option="-D" + "".join(o["opt"]), statement=o["stmt"], expected_expansion=o["expected"], with_option=a.get("err", code(a)), reference=code(b)))
+    if len(dopts) < 6:
+        raise common.ToolError("vacuous: %d -D cases" % len(dopts))
     if expanded < 100:
         raise common.ToolError("vacuous: %d cases with an actual expansion" % expanded)
     cov = dict(states=res.distinct, transitions=res.generated, traces_validated_against_impl=len(hc),
                samples=[dict(source=m[2], defines=m[3], expected=m[0]["expected"]) for m in meta[200:203]],
                cases_generated=total, cases_replayed=len(cases), renderings=len(hc), with_actual_expansion=expanded, disagreements=nbad,
+               dash_D_options_through_compile=dict(cases=len(dopts), agree=dopt_ok),
                attributed_to_known_findings=verdict.known, exhaustive=(len(cases) == total),
                explanation="GenMacro.tla enumerates definition subsets (object-like, function-like with 0-3 parameters, bodies using earlier macros, parameter names "
                            "that are substrings of other identifiers), #undef/redefinition tails, source vs -D origin, 0..198 filler macros (chunk boundaries) and 45 use "
